@@ -612,7 +612,14 @@ func (m *monitor) checkTerminal(e *sim.Entry, j *execution.Job) {
 	for _, p := range m.r.w.API.Pods() {
 		if ref := metav1.GetControllerOf(p); ref != nil && ref.UID == j.UID && podAlive(p) {
 			cp := m.ctrlCachedPod(keyOf(p))
-			if cp == nil || podAlive(cp) || true {
+			if cp == nil && findTaskRef(j, p.Name) == nil {
+				// neither recorded (the status write of the sync that created it failed) nor in
+				// the controller's cache yet. Since repair 17 the reconciler looks the tasks it
+				// would create next up from the API server before it lets a Job finish, so it
+				// can know this Pod: counted, and judged like any other live task.
+				m.label("unrecorded-uncached-live-pod-at-finish")
+			}
+			{
 				m.fail("C10", "finished-with-live-task", "Job %s reported %s while its task %s is still alive (phase %q)", e.Key, fin.Result, p.Name, p.Status.Phase)
 				return
 			}
@@ -831,10 +838,14 @@ func (m *monitor) knowableFinished(job *execution.Job) *execution.JobConditionFi
 	if cj == nil || m.r.w.Ctrl == nil {
 		return nil
 	}
-	// Only Pods the controller can know about count (cache, or live lookup of a
-	// recorded task): a Pod it created whose status write failed and whose creation
-	// event has not reached its cache yet is unknown to it; if the Job is killed and
-	// past its TTL in that window, the orphan is left to ownerReference GC.
+	// A Pod the Job controls that is still alive: the controller knows it from its
+	// cache, from the live lookup of a recorded task (repair 10), or from the live
+	// lookup of the tasks it would create next before it lets a Job finish (repair 17).
+	for _, p := range m.r.w.API.Pods() {
+		if ref := metav1.GetControllerOf(p); ref != nil && ref.UID == job.UID && podAlive(p) {
+			return nil
+		}
+	}
 	var ts []jobtasks.Task
 	for _, o := range m.r.w.Ctrl.Informer(sim.ResPods).GetIndexer().List() {
 		cp := o.(*corev1.Pod)
